@@ -625,8 +625,10 @@ fn main() {
                 p.push((1, fs));
                 if rng.chance(1, 2) { p.push((2, vec![T::P("U8"), T::Struct(1), T::P("I64")])); }
             } else {
-                let depth = 27 + rng.below(5);
-                p.push((0, vec![T::P("I64")]));
+                // doubling chain over a 4 MiB base: 2^31 .. 2^35 bytes after 9..13 levels (few levels on purpose:
+                // print::struct_size_align recomputes nested structs without memoisation, 2^levels calls)
+                let depth = 9 + rng.below(5);
+                p.push((0, vec![T::Arr(Box::new(T::P("I64")), 1 << 19)]));
                 for k in 1..=depth { p.push((k, vec![T::Struct(k - 1), T::Struct(k - 1)])); }
                 p.push((99, vec![T::Struct(depth), T::P("U8")]));
             }
